@@ -433,7 +433,7 @@ pub fn property() -> Property {
     Property {
         id: "C14",
         level: "exploration",
-        rule: "cases are (class, order, fixed/run-time spec, alignment in {0,1,2,4,8,16, 3..32, 2^31, 2^32, 2^63, 2^64-1, boundary/raw values}, 0..20 notes with namesz/descsz 0..40 covering every residue, GNU ABI-tag (16-byte descriptor; rarely a shorter one, which must not yield a typed tag) and build-id notes, names \"GNU\\0\"/\"GNU\"/non-UTF-8/with 0..3 trailing NULs, tail = exact | garbage | truncated at any byte of the last record | one corrupted size word, access path = NoteIterator::new | section of a generated file | PT_NOTE segment of a generated file, the latter two in 60% of the cases also through ElfStream over a reader with short reads / interruptions / any initial cursor and, in half of those, one transient I/O failure while the note bytes are loaded followed by a repetition of the call (in half of the cases after other ranges - enclosing the notes, sharing their start or their end - were read through the same handle): the first two successful answers equal the slice parser's notes, a failure needs a failed I/O call at or before it); oracle = independent reference walker (12-byte header of three 32-bit words in file order for both classes, name, pad, desc, pad): polled through fuse() the iterator stays None after its first None; items up to the first None equal the reference list (typed variants for GNU notes, name/desc exact byte ranges pointer-checked, name_str = UTF-8 minus trailing NULs), iteration ends at the first record that does not fit, align 0 yields nothing; nth/skip/count/last/step_by/size_hint on fresh and partly consumed iterators agree with repeated next(). Non-trivial: >=2 notes compared and (a length not a multiple of the alignment, or big-endian, or alignment != 4); distinct by (data, align, path) hash.",
+        rule: "cases are (class, order, fixed/run-time spec, alignment in {0,1,2,4,8,16, 3..32, 2^31, 2^32, 2^63, 2^64-1, boundary/raw values}, 0..20 notes with namesz/descsz 0..40 covering every residue, GNU ABI-tag (16-byte descriptor; rarely a shorter one, which must not yield a typed tag) and build-id notes, names \"GNU\\0\"/\"GNU\"/non-UTF-8/with 0..3 trailing NULs, tail = exact | garbage | truncated at any byte of the last record | one corrupted size word, access path = NoteIterator::new | section of a generated file | PT_NOTE segment of a generated file (over a PROGBITS section or over a SHT_NOTE section whose own sh_addralign differs from p_align), the latter two in 60% of the cases also through ElfStream over a reader with short reads / interruptions / any initial cursor and, in half of those, one transient I/O failure while the note bytes are loaded followed by a repetition of the call (in half of the cases after other ranges - enclosing the notes, sharing their start or their end - were read through the same handle): the first two successful answers equal the slice parser's notes, a failure needs a failed I/O call at or before it); oracle = independent reference walker (12-byte header of three 32-bit words in file order for both classes, name, pad, desc, pad): polled through fuse() the iterator stays None after its first None; items up to the first None equal the reference list (typed variants for GNU notes, name/desc exact byte ranges pointer-checked, name_str = UTF-8 minus trailing NULs), iteration ends at the first record that does not fit, align 0 yields nothing; nth/skip/count/last/step_by/size_hint on fresh and partly consumed iterators agree with repeated next(). Non-trivial: >=2 notes compared and (a length not a multiple of the alignment, or big-endian, or alignment != 4); distinct by (data, align, path) hash.",
         assumptions: &["a record whose empty descriptor would start in padding beyond the data is ambiguous under 'does not fit' and is excluded (counted)", "GNU ABI-tag notes with a descriptor shorter than 16 bytes (only reachable through the corrupted-size tail) are outside the statement and excluded (counted)"],
         subs: vec![Sub::new("notes", oracle, 2200, 2_000_000, 40_000_000)],
         extras: vec![crate::fuzz::c14_choice],
